@@ -341,7 +341,7 @@ def effect_events(p: Path) -> List[Event]:
     and the call markers of inlined package functions."""
     out = []
     for e in p.events:
-        if e.kind in ('assume', 'return', 'loop_skip', 'binop'):
+        if e.kind in ('assume', 'return', 'loop_skip', 'binop', 'log'):
             continue
         if e.kind == 'call' and e.d.get('inlined'):
             continue
